@@ -1,6 +1,7 @@
 #!/usr/bin/env python3
 """Behaviour-preserving changes (written by independent sub-agents from the property texts only): every check whose property is
-anchored in a touched file must stay quiet (exit 0, no VIOLATION).  usage: benign.py [ID ...]   (ids under seeded/benign/)"""
+anchored in a touched file must stay quiet (exit 0, no VIOLATION).  usage: benign.py [ID ...]   (ids under seeded/benign/;
+BENIGN_MAX_CHECKS=n runs only the first n of the relevant checks)"""
 import json, os, re, subprocess, sys
 root = '/verif/seeded/benign'
 BY_FILE = [('pjrpc/server/dispatcher.py', ['C01', 'C02', 'C03', 'C04', 'C10', 'C12', 'C13', 'C15']),
@@ -25,6 +26,7 @@ for d in sorted(os.listdir(root)):
     for pre, cs in BY_FILE:
         if any(f.startswith(pre) for f in files):
             checks += [c for c in cs if c not in checks]
+    checks = checks[:int(os.environ.get('BENIGN_MAX_CHECKS', '99'))]
     b = subprocess.run(['python3', '/verif/tools/verify_benign.py', p], stdout=subprocess.PIPE, text=True).stdout.strip().splitlines()[-1]
     r = subprocess.run(['python3', '/verif/tools/mutant.py', p + '/patch.diff'] + checks, stdout=subprocess.PIPE, text=True).stdout
     rcs = dict(re.findall(r'^== (C\d\d) rc=(\d+)', r, re.M))
